@@ -112,14 +112,20 @@ impl ConnectionManager {
         // more smeared out over time to avoid spiky load / thundering herd issues where all dial
         // requests happen around the same time.
         let jitter = std::time::Duration::from_millis(1_000).mul_f64(rand::random::<f64>());
+        #[cfg(bmwill_anemo_verif)]
+        let jitter = crate::verif::tick_jitter(jitter);
         let mut interval =
             tokio::time::interval(self.config.connectivity_check_interval() + jitter);
 
         let mut shutdown_notifier = None;
 
         loop {
+            #[cfg(bmwill_anemo_verif)]
+            crate::verif::point_ctx("cm.loop", Some(self.endpoint.peer_id()), None, None);
             tokio::select! {
                 now = interval.tick() => {
+                    #[cfg(bmwill_anemo_verif)]
+                    crate::verif::point_ctx("cm.tick", Some(self.endpoint.peer_id()), None, None);
                     self.handle_connectivity_check(now.into_std());
                 }
                 maybe_request = self.mailbox.recv() => {
@@ -143,21 +149,31 @@ impl ConnectionManager {
                     }
                 }
                 connecting = self.endpoint.accept() => {
+                    #[cfg(bmwill_anemo_verif)]
+                    crate::verif::point_ctx("cm.accept", Some(self.endpoint.peer_id()), None, None);
                     if let Some(connecting) = connecting {
                         self.handle_incoming(connecting);
                     }
                 },
                 Some(connecting_output) = self.pending_connections.join_next() => {
+                    #[cfg(bmwill_anemo_verif)]
+                    crate::verif::point_ctx("cm.pending", Some(self.endpoint.peer_id()), None, None);
                     self.handle_connecting_result(connecting_output.unwrap());
                 },
                 Some(connection_handler_output) = self.connection_handlers.join_next() => {
+                    #[cfg(bmwill_anemo_verif)]
+                    crate::verif::point_ctx("cm.handler", Some(self.endpoint.peer_id()), None, None);
                     // If a task panics, just propagate it
                     connection_handler_output.unwrap();
                 },
             }
         }
 
+        #[cfg(bmwill_anemo_verif)]
+        crate::verif::point("cm.loop_exit");
         self.shutdown().await;
+        #[cfg(bmwill_anemo_verif)]
+        crate::verif::point("cm.shutdown_done");
 
         if let Some(sender) = shutdown_notifier {
             let _ = sender.send(());
@@ -173,11 +189,17 @@ impl ConnectionManager {
         // connections, notifying the remote side of the endpoint's closure.
         self.endpoint.close();
 
+        #[cfg(bmwill_anemo_verif)]
+        crate::verif::point("cm.shutdown.closed");
         // Terminate any in-progress pending connections
         self.pending_connections.shutdown().await;
+        #[cfg(bmwill_anemo_verif)]
+        crate::verif::point("cm.shutdown.pending_done");
 
         // Wait for all connection handlers to terminate
         while self.connection_handlers.join_next().await.is_some() {}
+        #[cfg(bmwill_anemo_verif)]
+        crate::verif::point("cm.shutdown.handlers_done");
         // At this point we shouldn't have any active peers
         assert!(
             self.active_peers.inner().connections.is_empty(),
@@ -188,6 +210,8 @@ impl ConnectionManager {
         self.endpoint
             .wait_idle(self.config.shutdown_idle_timeout())
             .await;
+        #[cfg(bmwill_anemo_verif)]
+        crate::verif::point("cm.shutdown.idle_done");
 
         // This is a small hack in order to ensure that the underlying socket we're bound to is
         // dropped and immediately available to be rebound to once this function exits.
@@ -429,6 +453,13 @@ impl ConnectionManager {
         peer_id: Option<PeerId>,
         oneshot: oneshot::Sender<Result<PeerId>>,
     ) {
+        #[cfg(bmwill_anemo_verif)]
+        crate::verif::point_ctx(
+            "cm.dial",
+            Some(self.endpoint.peer_id()),
+            peer_id,
+            Some(&address.to_string()),
+        );
         self.pending_connections.spawn(Self::dial_peer_task(
             self.endpoint.clone(),
             address,
@@ -558,10 +589,14 @@ impl ActivePeers {
     }
 
     fn inner(&self) -> std::sync::RwLockReadGuard<'_, ActivePeersInner> {
+        #[cfg(bmwill_anemo_verif)]
+        crate::verif::point("ap.read");
         self.0.read().unwrap()
     }
 
     fn inner_mut(&self) -> std::sync::RwLockWriteGuard<'_, ActivePeersInner> {
+        #[cfg(bmwill_anemo_verif)]
+        crate::verif::point("ap.write");
         self.0.write().unwrap()
     }
 
@@ -651,6 +686,8 @@ impl ActivePeersInner {
     }
 
     fn send_event(&self, event: PeerEvent) {
+        #[cfg(bmwill_anemo_verif)]
+        crate::verif::point("ap.send_event");
         // We don't care if anyone is listening
         let _ = self.peer_event_sender.send(event);
     }
@@ -749,6 +786,131 @@ impl KnownPeers {
 
     fn inner_mut(&self) -> std::sync::RwLockWriteGuard<'_, HashMap<PeerId, PeerInfo>> {
         self.0.write().unwrap()
+    }
+}
+
+/// Verification hooks: direct drive of the active-peer set with real connections, the tie-break
+/// decision and the dial backoff arithmetic.
+#[cfg(bmwill_anemo_verif)]
+pub mod verif {
+    use super::*;
+
+    /// A real anemo connection (wrapping a real `quinn::Connection`).
+    #[derive(Clone)]
+    pub struct VerifConn(Connection);
+
+    impl VerifConn {
+        pub fn new(inner: quinn::Connection, origin: ConnectionOrigin) -> Result<Self> {
+            Connection::new(inner, origin).map(Self)
+        }
+
+        pub fn peer_id(&self) -> PeerId {
+            self.0.peer_id()
+        }
+
+        pub fn origin(&self) -> ConnectionOrigin {
+            self.0.origin()
+        }
+
+        pub fn stable_id(&self) -> usize {
+            self.0.stable_id()
+        }
+
+        pub fn close_reason(&self) -> Option<quinn::ConnectionError> {
+            self.0.verif_inner().close_reason()
+        }
+
+        /// The ack handshake that follows the TLS handshake.
+        pub async fn handshake(self) -> Result<Self> {
+            crate::network::wire::handshake(self.0).await.map(Self)
+        }
+    }
+
+    #[derive(Clone)]
+    pub struct VerifActivePeers(ActivePeers);
+
+    impl VerifActivePeers {
+        pub fn new(channel_size: usize) -> Self {
+            Self(ActivePeers::new(channel_size))
+        }
+
+        pub fn add(&self, own_peer_id: &PeerId, new_connection: &VerifConn) -> Option<VerifConn> {
+            self.0
+                .add(own_peer_id, new_connection.0.clone())
+                .map(VerifConn)
+        }
+
+        pub fn remove(&self, peer_id: &PeerId, reason: DisconnectReason) {
+            self.0.remove(peer_id, reason)
+        }
+
+        pub fn remove_with_stable_id(
+            &self,
+            peer_id: PeerId,
+            stable_id: usize,
+            reason: DisconnectReason,
+        ) {
+            self.0.remove_with_stable_id(peer_id, stable_id, reason)
+        }
+
+        pub fn subscribe(&self) -> (broadcast::Receiver<PeerEvent>, Vec<PeerId>) {
+            self.0.subscribe()
+        }
+
+        pub fn peers(&self) -> Vec<PeerId> {
+            self.0.peers()
+        }
+
+        pub fn get(&self, peer_id: &PeerId) -> Option<VerifConn> {
+            self.0.get(peer_id).map(VerifConn)
+        }
+
+        pub fn len(&self) -> usize {
+            self.0.len()
+        }
+    }
+
+    pub fn tie_break(
+        own_peer_id: &PeerId,
+        remote_peer_id: &PeerId,
+        existing_origin: ConnectionOrigin,
+        new_origin: ConnectionOrigin,
+    ) -> bool {
+        ActivePeersInner::simultaneous_dial_tie_breaking(
+            own_peer_id,
+            remote_peer_id,
+            existing_origin,
+            new_origin,
+        )
+    }
+
+    pub struct VerifBackoff(DialBackoffState);
+
+    impl VerifBackoff {
+        pub fn new(
+            now: std::time::Instant,
+            backoff_step: std::time::Duration,
+            max_backoff: std::time::Duration,
+        ) -> Self {
+            Self(DialBackoffState::new(now, backoff_step, max_backoff))
+        }
+
+        pub fn update(
+            &mut self,
+            now: std::time::Instant,
+            backoff_step: std::time::Duration,
+            max_backoff: std::time::Duration,
+        ) {
+            self.0.update(now, backoff_step, max_backoff)
+        }
+
+        pub fn backoff(&self) -> std::time::Instant {
+            self.0.backoff
+        }
+
+        pub fn attempts(&self) -> usize {
+            self.0.attempts
+        }
     }
 }
 
